@@ -75,7 +75,24 @@ func VerifC11Handles() {
 func VerifC11Expiry() {
 	srv := ch.VerifNewServer()
 	ctx := context.Background()
-	switch verifChoice("case", 5) {
+	switch verifChoice("case", 6) {
+	case 5: // the lifetime counts from creation, however the time was spent: two holds, each shorter than the lifetime
+		p := vPool(srv, 1, 100*time.Millisecond, time.Hour)
+		a, _ := p.Acquire(ctx)
+		verifClockAdvanceTo(time.Now().Add(60 * time.Millisecond).UnixMilli())
+		a.Release() // 60 ms old: kept
+		verifSettle()
+		verifAssert(!srv.Closed(0), "young-connection-kept-on-release")
+		b, _ := p.Acquire(ctx)
+		verifAssert(srv.VerifConnIndex(b.client()) == 0, "young-connection-reused")
+		verifClockAdvanceTo(time.Now().Add(60 * time.Millisecond).UnixMilli())
+		b.Release() // ~120 ms old: past its lifetime
+		verifSettle()
+		verifAssert(srv.Closed(0), "lifetime-counts-from-creation")
+		c, _ := p.Acquire(ctx)
+		verifAssert(srv.VerifConnIndex(c.client()) == 1, "expired-connection-not-reissued-later")
+		c.Release()
+		p.Close()
 	case 4: // a periodic health check must not keep an idle connection alive: idleness counts from the last use
 		p := vPool(srv, 2, time.Hour, 100*time.Millisecond)
 		a, _ := p.Acquire(ctx)
@@ -143,7 +160,19 @@ func VerifC12Pool() {
 	srv := ch.VerifNewServer()
 	maxConns := int32(verifIntRange("maxconns", 1, 2))
 	verifSchedPolicy([3]string{"first", "last", "rr"}[verifChoice("policy", 3)], 0)
-	p := vPool(srv, maxConns, time.Hour, time.Hour)
+	// the options (with room to spare in the settings slice) are shared by every connection of the pool
+	settings := make([]ch.Setting, 1, 4)
+	settings[0] = ch.Setting{Key: "a", Value: "1"}
+	p, err := New(context.Background(), Options{
+		ClientOptions:   ch.Options{Dialer: srv, ProtocolVersion: 54460, Settings: settings},
+		MaxConns:        maxConns,
+		MaxConnLifetime: time.Hour,
+		MaxConnIdleTime: time.Hour,
+	})
+	if err != nil {
+		verifFail("pool-created")
+		return
+	}
 	ctx := context.Background()
 	var wg sync.WaitGroup
 	user := func() {
@@ -153,6 +182,9 @@ func VerifC12Pool() {
 			return
 		}
 		_ = c.Ping(ctx)
+		// a query with its own settings (the scripted server answers with a Pong: the query fails
+		// after it was sent, which is all the analysis needs)
+		_ = c.Do(ctx, ch.Query{Body: "SELECT 1", Settings: []ch.Setting{{Key: "q", Value: "2"}}})
 		c.Release()
 		c.Release() // inert
 	}
@@ -164,6 +196,7 @@ func VerifC12Pool() {
 		p.checkIdleConnsHealth()
 	}()
 	wg.Wait()
+	verifSettle() // connections of failed queries are destroyed asynchronously
 	verifAssert(p.Stat().AcquiredResources() == 0, "all-released")
 	p.Close()
 	verifAssert(srv.OpenConns() == 0, "pool-closed")
